@@ -5,7 +5,7 @@ from lib import vf
 
 RULE_F = ("edge/vertex lists (0-18 vertices, 0-65 edges, hub vertices so that degrees run from 0 to well above 5, parallel "
           "edges, self loops, isolated vertices) rendered as real CSV files under the stream's data/ directory: plain / gzip "
-          "with .gz / gzip WITHOUT .gz, with / without trailing newline, LF / CRLF, shuffled + extra columns in both files, "
+          "with .gz / gzip WITHOUT .gz, with / without trailing newline, LF / CRLF, shuffled + extra columns in both files (extra column names drawn from plausible aliases / near-misses of the real ones - lon, lat, X, id, src, length ... - holding other numbers, in every position), "
           "padded fields, exponent notation, explicit (true / arbitrary) or scanned n_edges / n_vertices; loaded through "
           "Graph::from_files or DefaultGraphBuilder::build (the call CompassApp makes); every accessor printed: sizes, "
           "get_edge / get_vertex past the end, out_edges / in_edges, adj / rev through iter() (len / get asserted "
@@ -14,7 +14,7 @@ RULE_F = ("edge/vertex lists (0-18 vertices, 0-65 edges, hub vertices so that de
           "model, S = specification read off the rows by find / filter; '!DatasetError' (must not load) when an end point is "
           "not a listed vertex; 'unspecified' outside the documented format LD.wf_format. Deterministic families first: star degrees 0..9 x formats, all format x newline combinations, "
           "k parallel edges, k self loops, header-only and zero-byte files, explicit counts, end points out of range, "
-          "unsorted / duplicate ids, blank trailing lines, column / field syntax. Non-trivial = inside the hypotheses and "
+          "unsorted / duplicate ids, blank trailing lines, alias-named extra columns at every position, column / field syntax. Non-trivial = inside the hypotheses and "
           "some vertex has in- or out-degree >= 6; distinct by case")
 RULE_T = ("per-edge tables written as files (plain / .gz / gzip without extension, with / without trailing newline, 0-75 rows) "
           "and loaded through the readers the models use: read_raw_file + read_decoders::default::<Speed> (and "
@@ -58,7 +58,7 @@ def run(chk):
     quick = chk.tier == "quick"
     corpus = ["--corpus", os.path.join(vf.ROOT, "corpus", "C15")]   # witnesses, replayed first in each stream
     if _is(chk, "files"):
-        r = vf.run_stream(binp, "files", 420 if quick else 6000, chk.seed, os.path.join(chk.outdir, "files"), extra=corpus, replay=chk.replay)
+        r = vf.run_stream(binp, "files", 470 if quick else 6000, chk.seed, os.path.join(chk.outdir, "files"), extra=corpus, replay=chk.replay)
         chk.add_stream(r, RULE_F)
         vf.compare(chk, r, classify=classify, binpath=binp, extra=corpus)
     if _is(chk, "tables"):
